@@ -13,7 +13,8 @@ from pytezos.crypto.encoding import base58_encode
 from pytezos.crypto.key import blake2b_32
 from pytezos.michelson.tags import prim_tags
 
-prim_int = {v[0]: k for k, v in prim_tags.items()}
+# 0xee is a placeholder shared by the TZT/Jupyter helpers, not a protocol primitive tag
+prim_int = {v[0]: k for k, v in prim_tags.items() if v != b'\xee'}
 
 
 def get_tag(args_len: int, annots_len: int) -> bytes:
